@@ -74,6 +74,9 @@ func kindsInto(b *ssa.BasicBlock) map[int64]bool {
 // kinds for which some `return true` is reachable only through an equality test with that kind.
 func kindPredicate(cond ssa.Value) map[int64]bool {
 	out := map[int64]bool{}
+	if lk, isLk := cond.(*ssa.Lookup); isLk && !lk.CommaOk {
+		return kindTable(lk)
+	}
 	cl, ok := cond.(*ssa.Call)
 	if !ok {
 		return out
@@ -505,4 +508,107 @@ func checkSizeGuards(p *Prog, r *Report, rule string, convs []*ssa.Function) []*
 		}
 	}
 	return casters
+}
+
+// kindTable: lk reads a package-level map[reflect.Kind]bool that only the package initialiser fills, with constant keys;
+// the result is the set of kinds mapped to true. Empty when the table can be written elsewhere.
+func kindTable(lk *ssa.Lookup) map[int64]bool {
+	out := map[int64]bool{}
+	ld, ok := lk.X.(*ssa.UnOp)
+	if !ok || ld.Op != token.MUL {
+		return out
+	}
+	g, ok := ld.X.(*ssa.Global)
+	if !ok || (g.Object() != nil && g.Object().Exported()) {
+		return out
+	}
+	mt, ok := g.Type().Underlying().(*types.Pointer).Elem().Underlying().(*types.Map)
+	if !ok || !isBool(mt.Elem()) {
+		return out
+	}
+	if nt, ok := mt.Key().(*types.Named); !ok || nt.Obj().Pkg() == nil || nt.Obj().Pkg().Path() != "reflect" || nt.Obj().Name() != "Kind" {
+		return out
+	}
+	var fns []*ssa.Function
+	var addAnon func(f *ssa.Function)
+	addAnon = func(f *ssa.Function) {
+		fns = append(fns, f)
+		for _, a := range f.AnonFuncs {
+			addAnon(a)
+		}
+	}
+	for _, m := range g.Pkg.Members {
+		switch x := m.(type) {
+		case *ssa.Function:
+			addAnon(x)
+		case *ssa.Type:
+			for _, t := range []types.Type{x.Type(), types.NewPointer(x.Type())} {
+				ms := g.Pkg.Prog.MethodSets.MethodSet(t)
+				for i := 0; i < ms.Len(); i++ {
+					if mf := g.Pkg.Prog.MethodValue(ms.At(i)); mf != nil && mf.Pkg == g.Pkg && mf.Blocks != nil {
+						addAnon(mf)
+					}
+				}
+			}
+		}
+	}
+	okAll := true
+	var table ssa.Value
+	for _, f := range fns {
+		isInit := f.Name() == "init" && f.Parent() == nil && f.Signature.Recv() == nil
+		eachInstr(f, func(i ssa.Instruction) {
+			switch x := i.(type) {
+			case *ssa.Store:
+				if x.Addr == ssa.Value(g) {
+					if !isInit || table != nil {
+						okAll = false
+					}
+					table = x.Val
+				}
+			case *ssa.UnOp:
+				if x.Op == token.MUL && x.X == ssa.Value(g) {
+					// a load of the table: only lookups and len may use it
+					for _, ref := range *x.Referrers() {
+						switch r := ref.(type) {
+						case *ssa.Lookup:
+						case *ssa.Call:
+							if bi, isB := r.Call.Value.(*ssa.Builtin); !isB || bi.Name() != "len" {
+								okAll = false
+							}
+						case *ssa.Range:
+						default:
+							okAll = false
+						}
+					}
+				}
+			default:
+				for _, op := range i.Operands(nil) {
+					if op != nil && *op == ssa.Value(g) {
+						okAll = false // address of the table escapes
+					}
+				}
+			}
+		})
+	}
+	mm, ok := table.(*ssa.MakeMap)
+	if !ok || !okAll {
+		return map[int64]bool{}
+	}
+	for _, ref := range *mm.Referrers() {
+		switch r := ref.(type) {
+		case *ssa.MapUpdate:
+			k, okK := constInt(r.Key)
+			v, okV := r.Value.(*ssa.Const)
+			if !okK || !okV || v.Value == nil {
+				return map[int64]bool{}
+			}
+			if constant.BoolVal(v.Value) {
+				out[k] = true
+			}
+		case *ssa.Store:
+		default:
+			return map[int64]bool{}
+		}
+	}
+	return out
 }
